@@ -129,8 +129,8 @@ del NOT_APPLICABLE['C18']
 PLAN['C04'] = {
     'level': 'proof',
     'technique': 'contract-based deductive verification (Verus) of VmData::simplify/VmWorkspace on real text, through the proved contract of RegisterAllocator::op; Kani full-domain harnesses for the trace hypothesis; bounded native contract runner for value preservation and JIT traces',
-    'level_text': 'S1 proved unbounded: for every well-formed parent tape, every trace of the right length without Unknown, every register budget M in 3..=255 and any previous workspace contents, simplify cannot panic (all 26 unwrap/assert/panic sites, 11 overflow and 8 index obligations, and the allocator preconditions call by call) and preserves vars and the output count; the hypothesis `a decided choice is valid at every point of the box` is proved for all f32/intervals by Kani. S3 proved unbounded at the SSA level: whenever the trace is valid for the parent run (every decided clause's value is bit for bit the selected operand's), the simplified SSA tape yields exactly the parent's outputs from any initial environment (simulation invariant `ssim`, one semantic transition lemma per kind of arm, all 51 arms). The bounded contract simplify_sem additionally runs real traces from all four tracing evaluators through simplify and compares values natively.',
-    'level_note': 'Trusted: Verus+Z3, Kani/CBMC, extractor rewrite rules (R-orpat, R-iter, R-revnext, R-constdefault, ...). Assumed: parent tape is strict SSA (established by SsaTape::new: bounded leg flatten) and choice_count equals the number of choice clauses. Bounded only: that the evaluators' traces satisfy the trace hypothesis on whole tapes (per clause it is proved by Kani), JIT traces, (the register tape of the simplified function is proved to compute its SSA tape for the new budget M, from any initial register/memory contents, by the same simulation argument as RegTape::new).',
+    'level_text': 'S1 proved unbounded: for every well-formed parent tape, every trace of the right length without Unknown, every register budget M in 3..=255 and any previous workspace contents, simplify cannot panic (all 26 unwrap/assert/panic sites, 11 overflow and 8 index obligations, and the allocator preconditions call by call) and preserves vars and the output count; the hypothesis `a decided choice is valid at every point of the box` is proved for all f32/intervals by Kani. S3 proved unbounded at the SSA level: whenever the trace is valid for the parent run (the value of every decided clause is bit for bit that of the selected operand), the simplified SSA tape yields exactly the outputs of the parent from any initial environment (simulation invariant `ssim`, one semantic transition lemma per kind of arm, all 51 arms). The bounded contract simplify_sem additionally runs real traces from all four tracing evaluators through simplify and compares values natively.',
+    'level_note': 'Trusted: Verus+Z3, Kani/CBMC, extractor rewrite rules (R-orpat, R-iter, R-revnext, R-constdefault, ...). Assumed: parent tape is strict SSA (established by SsaTape::new: bounded leg flatten) and choice_count equals the number of choice clauses. Bounded only: that the traces of the evaluators satisfy the trace hypothesis on whole tapes (per clause it is proved by Kani), JIT traces, (the register tape of the simplified function is proved to compute its SSA tape for the new budget M, from any initial register/memory contents, by the same simulation argument as RegTape::new).',
     'legs': [leg_verus('alloc'), leg_verus('simplify'), leg_kani('leaf'), leg_bounded('simplify_sem'), leg_bounded('jit_trace')],
     'explanation': 'Loop invariant sinv (P1, COV, INJ, P3, Q of DESIGN.md B.3) over (bind, count, allocator allocations, ops, k) plus the LEN equation ops_out.len + live == outputs + count; one transition lemma per kind of arm (skip, alias, emit with 0/1/2 renamed arguments, output); the 51 arms of the loop body are verified in 13 path-partitioned runs.',
     'assumptions': ['ssa_strict(parent tape) and choice_count == #choice clauses (SsaTape::new contract, bounded leg of C01)',
